@@ -7,6 +7,7 @@
                              Default / HasValue / Value           → `Attr.isDefault`, `Attr.hasValue`, `Attr.implicit`
     types/annotatedmember.go assertOverride / assertCanBeOverridden → `assertOverride` (+ `asg`: IsAssignable on the alphabet)
     types/objecttype.go      InitFromHash  (attributes loop)      → `defineAttrs`
+                                           (constants loop)       → `constDecl`, `Def.decls`, BOTH_CONSTANT_AND_ATTRIBUTE
                                            (equality loop)        → `checkEquality`
                                            (serialization loop)   → `checkSerialization`
                                            (whole)                → `define`
@@ -40,8 +41,8 @@
 
   Go runtime faults / raised issues are explicit: every function that can raise in Go answers `Except Code _`.
   Attribute types are a small alphabet with a decidable instance test (`inst`); nothing in this file depends on which.
-  Not modelled (outside the universe the driver accepts): functions, type parameters, annotations,
-  constants given through `constants => {}`, a hash literal with a repeated key.
+  Not modelled (outside the universe the driver accepts): functions, type parameters, annotations, a hash literal with a
+  repeated key, an `undef` given through `constants => {}` (its inferred type `Undef` is not in the alphabet).
   Core-only file (linked into the driver).
 -/
 namespace Pcore.Object
@@ -86,7 +87,7 @@ inductive Kind where
 /-- issue codes (printed without the `PCORE_` prefix) and the Go runtime fault -/
 inductive Code where
   | typeMismatch | constantRequiresValue | illegalKindValueCombination | overrideIsMissing | overrideOfFinal
-  | overriddenNotFound | overrideTypeMismatch | constantWithFinal
+  | overriddenNotFound | overrideTypeMismatch | constantWithFinal | bothConstantAndAttribute
   | equalityAttributeNotFound | equalityOnConstant | equalityRedefined
   | serializationAttributeNotFound | serializationBadKind | serializationRequiredAfterOptional
   | serializationDuplicateAttribute
@@ -103,6 +104,7 @@ def Code.toString : Code → String
   | .overriddenNotFound => "reported OVERRIDDEN_NOT_FOUND"
   | .overrideTypeMismatch => "reported OVERRIDE_TYPE_MISMATCH"
   | .constantWithFinal => "reported CONSTANT_WITH_FINAL"
+  | .bothConstantAndAttribute => "reported BOTH_CONSTANT_AND_ATTRIBUTE"
   | .equalityAttributeNotFound => "reported EQUALITY_ATTRIBUTE_NOT_FOUND"
   | .equalityOnConstant => "reported EQUALITY_ON_CONSTANT"
   | .equalityRedefined => "reported EQUALITY_REDEFINED"
@@ -171,6 +173,8 @@ structure Def where
   equality : EqDecl
   includeType : Option Bool
   serialization : Option (List String)
+  /-- `constants => {name => value}`: constants whose type is inferred from the value -/
+  constants : List (String × Val) := []
   deriving Repr, Inhabited
 
 /-- one level of a resolved type -/
@@ -299,10 +303,26 @@ def parentOf (env : List OType) (d : Def) : OType :=
   | none => []
   | some j => (env[j]?).getD []
 
+/-- `px.Generalize(value.PType())` on the value alphabet -/
+def tyOfVal : Val → Ty
+  | .int _ => .int
+  | .str _ => .str
+  | .bool _ => .bool
+  | _ => .any      -- undef / a hash: not accepted by the driver as a constant
+
+/-- InitFromHash, constants loop: the attribute specification a `constants` entry stands for — the type inferred from the
+    value, kind constant, and `override` set exactly when the parent has a member of that name -/
+def constDecl (parent : OType) (c : String × Val) : AttrDecl :=
+  { name := c.1, ty := tyOfVal c.2, kind := .constant, dflt := some c.2, override := (findAttr parent c.1).isSome }
+
+/-- the attribute specifications in the order InitFromHash processes them: `attributes`, then `constants` -/
+def Def.decls (d : Def) (parent : OType) : List AttrDecl := d.attrs ++ d.constants.map (constDecl parent)
+
 /-- objectType.InitFromHash: the definition numbered `env.length` against the earlier definitions `env` -/
 def define (env : List OType) (d : Def) : Except Code OType :=
   let parent : OType := parentOf env d
-  match defineAttrs parent d.attrs with
+  if d.constants.any (fun c => d.attrs.any (fun a => a.name == c.1)) then .error .bothConstantAndAttribute else
+  match defineAttrs parent (d.decls parent) with
   | .error c => .error c
   | .ok attrs =>
     match checkEquality attrs parent (d.equality.toList?.getD []) with
